@@ -391,7 +391,7 @@ fn op_strategy() -> impl Strategy<Value = Op> {
 
 /// Ops that follow the message's structure (so that reads mostly line up), with
 /// random deviations.
-fn case_strategy() -> impl Strategy<Value = Case> {
+pub fn case_strategy() -> impl Strategy<Value = Case> {
     (msg_spec(), prop::collection::vec(op_strategy(), 0..30), any::<bool>()).prop_map(|(msg, random_ops, structured)| {
         let ops = if structured {
             let mut ops = Vec::new();
